@@ -201,6 +201,7 @@ func HarnessC20() {
 	zzvrt.Assume(zzvrt.DIs(d2, "price", zzvrt.KObject))
 	zzvrt.Assume(zzvrt.DIs(d2, "meta", zzvrt.KAbsent))
 	zzvrt.Assume(zzvrt.DIs(d2, "price/tag", zzvrt.KAbsent))
+	zzvrt.Assume(zzvrt.DIs(d2, "price/direct", zzvrt.KAbsent))
 	zzvrt.Assume(zzvrt.Or(zzvrt.DIs(d2, "price/amount", zzvrt.KAbsent), zzvrt.Or(zzvrt.DIs(d2, "price/amount", zzvrt.KString),
 		zzvrt.And(zzvrt.DIs(d2, "price/amount", zzvrt.KNumber), zzvrt.DIsInt(d2, "price/amount")))))
 	_, accepted2, ok := zzRunT("C10.multi-doc", hOrder, orderRoot, "json", d2)
